@@ -141,6 +141,7 @@ func checkC15(r *core.Run) {
 	e.run([]string{"pkg/bondmachine", "cmd/bondmachine"}, func(pk *packages.Package, fd *ast.FuncDecl) bool {
 		return e.mentionsFieldOf(pk, fd, "pkg/bondmachine.SimDrive.", "pkg/bondmachine.SimReport.")
 	})
+	ruleSingleParser(r, prog, "C15", []string{"pkg/bondmachine", "cmd/bondmachine"})
 }
 
 // ---- (a) extraction of Add ----------------------------------------------------------
